@@ -1,6 +1,7 @@
 """Generic driver for a correspondence suite: corpus first, then generated scripts, batching,
 crash isolation, judging, statistics, shrinking of the first failures."""
 import hashlib
+import time
 import os
 
 import vlib
@@ -71,12 +72,21 @@ def run_suite(ctx, suite_name, exes, scripts, run_batch, run_one, judge, classif
                                             "output_head": [l for l in out if not l.startswith("nodes") and not l.startswith("dump")][:12]})
                 else:
                     nfail += 1
+                    if nfail > max_report and crashed:
+                        # the batch died (crash / hang) and enough failures are reported already: do not re-run
+                        # the remaining scripts of a dying build one by one
+                        ctx.cov["failures"] += nfail
+                        return nfail
                     if nfail <= max_report:
                         kind = "violation" if j.startswith("violation") else "correspondence"
                         script = r["script"]
                         extra = ""
                         if kind == "violation":
+                            deadline = time.time() + 240
+
                             def bad(txt):
+                                if time.time() > deadline:
+                                    return False
                                 rr, ss = run_one(exe, txt)
                                 jj = judge(rr, ss)
                                 return jj is not None and jj.startswith("violation")
